@@ -106,6 +106,7 @@ class TeeCase(FnCase):
                     if o is conn and not d.get('connect'):
                         if d.get('on_error') is not None:
                             seq.append((d['on_error'], [SVal(Const('source_err', Val))]))
+                            if not any(e.eq(Const('source_err', Val)) for e in self.errs): self.errs.append(Const('source_err', Val))
                     elif is_branch(o):
                         bi = next(t for t, s in enumerate(srcs) if s is o)
                         if self.case == 'SourceErrorSwallowed' and bi == self.branch:
@@ -125,7 +126,12 @@ class TeeCase(FnCase):
         fn = handler.fn if isinstance(handler, Partial) else handler
         self.handler_index_ok = isinstance(handler, Partial) and handler.args == [self.branch]
         sc = fn.scope
-        self.queue = q.cells[sc.lookup('queue')]; self.has = q.cells[sc.lookup('has_next')]
+        cq_, ch_ = sc.lookup('queue'), sc.lookup('has_next')
+        if cq_ is None or ch_ is None or cq_ not in q.cells or ch_ not in q.cells:
+            # the contract is written over the representation "latest value per (key, branch) + a has-value flag per cell"; another
+            # representation (e.g. None as 'empty') is outside it: undecided, the end-to-end tier of the property decides
+            raise Unsupported('tee_map (mux): the join cells are not kept as a value array plus a flag array (queue / has_next)')
+        self.queue = q.cells[cq_]; self.has = q.cells[ch_]
         q.heap[self.queue.oid] = ('arr', QA, LEN, 'val', None)
         q.heap[self.has.oid] = ('arr', HA, LEN, 'int', 'B')
         q.trace = Const('trace0', Trace); q.calls = []; q.pc = []
@@ -166,8 +172,8 @@ class TeeCase(FnCase):
                     ('completes_when_all_branches_done', q.trace == Concat(self.trace0, Unit(em(OUT, Ev.Done))))]
         if self.case in ('SourceError', 'SourceErrorSwallowed'):
             # C13 (a router in any branch sees the stream error and its dead letter completes): nothing is signalled downstream -- which
-            # would dispose the remaining branches -- before every branch has terminated; then exactly one on_error, with an error a
-            # branch handed over
+            # would dispose the remaining branches -- before every branch has been notified; then exactly one on_error, with the error
+            # of the source or one a branch handed over
             return [('nothing_signalled_before_the_last_branch', self.trace_before_last == self.trace0),
                     ('fails_once_when_all_branches_terminated', Or(*[q.trace == Concat(self.trace0, Unit(em(OUT, Ev.Err(e)))) for e in self.errs]))]
         if self.case == 'BranchError':
